@@ -11,6 +11,7 @@ import (
 	"verif/internal/kinds"
 	"verif/internal/load"
 	"verif/internal/report"
+	"verif/internal/yacc"
 )
 
 type Ctx struct {
@@ -20,6 +21,16 @@ type Ctx struct {
 
 	progs map[string]*load.Program
 	tbs   map[string]*kinds.Table
+
+	langs    map[string]*yacc.Lang
+	cleanups []func()
+}
+
+func (c *Ctx) cleanup() {
+	for _, f := range c.cleanups {
+		f()
+	}
+	c.cleanups = nil
 }
 
 type Property struct {
@@ -126,6 +137,15 @@ func (c *Ctx) Fixture(name, rule string, deep bool, run func(p *load.Program, tb
 	}()
 	if res == nil {
 		return
+	}
+	c.compareFixture(name, rule, dir, res)
+}
+
+// compareFixture compares the non-discharged keys of res with expect.json[rule] in dir.
+func (c *Ctx) compareFixture(name, rule, dir string, res *report.RuleResult) {
+	label := name + ":" + rule
+	fail := func(msg string) {
+		c.Run.FixtureFails = append(c.Run.FixtureFails, label+": "+msg)
 	}
 	b, err := os.ReadFile(filepath.Join(dir, "expect.json"))
 	if err != nil {
